@@ -41,7 +41,8 @@ def run(sc, tier, replay):
     thorough = tier == "thorough"
     binary = vlib.go_build(sc, "./cmd/fed", "fed")
     off = ["nodirid", "nofragdirs"]
-    strata = {"core": (off + ["oddids", "richargs"], 0.45), "skeleton": (off + ["skeleton"], 0.3), "abstract": (off + ["abstract"], 0.25)}
+    strata = {"core": (off + ["oddids", "richargs"], 0.4), "skeleton": (off + ["skeleton"], 0.2), "abstract": (off + ["abstract"], 0.2),
+              "rootnode": (off + ["rootnode"], 0.2)}
     total_worlds, ops, repeats = (1400, 12, 25) if thorough else (280, 10, 6)
     stats = {}
     sample = None
@@ -50,7 +51,7 @@ def run(sc, tier, replay):
         nsh = 14
         worlds = max(1, int(total_worlds * share / nsh))
         outs = fedlib.gen_traces(sc, binary, nsh, worlds, ops, ",".join(feats), cfgs="default,cached",
-                                 extra=["-mode", "repeat", "-repeats", str(repeats)], seed_base=vlib.seed() * 1000 + {"core": 0, "skeleton": 250}.get(name, 500))
+                                 extra=["-mode", "repeat", "-repeats", str(repeats)], seed_base=vlib.seed() * 1000 + {"core": 0, "skeleton": 250, "rootnode": 750}.get(name, 500))
         runs = []
         for o, r in outs:
             if r.timed_out:
